@@ -395,5 +395,49 @@ def rule_w3(repo):
     return res
 
 
+def rule_w4(repo):
+    """Sibling agreement of the binder-printing branches: whoever picks a fresh name for a bound
+    variable must register it while the body is printed, else an inner binder can pick the same name
+    and capture the outer variable in the printed text."""
+    res = RuleResult('C07.W4', 'every branch of the printer that names a bound variable registers the name while its body is printed', floor=3)
+    f = repo.func(PPRINT, 'get_ast_term.<locals>.helper')
+    cfg = cfg_from(f)
+    picks = [n for n in cfg.stmt_nodes(ast.Assign) if isinstance(n.ast.value, ast.Call) and
+             call_attr(n.ast.value) == 'get_variant_name' and isinstance(n.ast.targets[0], ast.Name)]
+    need(len(picks) >= 2, 'pprint.get_ast_term.helper: fewer than two binder branches pick a variant name')
+    for p in picks:
+        nm = p.ast.targets[0].id
+        pool = src(p.ast.value.args[1]) if len(p.ast.value.args) > 1 else '?'
+        # the recursive call that prints the body: first helper(...) call reachable from the pick
+        reach = cfg.reach_from([b for b, _l in p.succ])
+        body_calls = [n for n in cfg.nodes if n.id in reach and n.kind == 'stmt' and any(
+            isinstance(c, ast.Call) and is_name(c.func, f.name) and any(isinstance(x, ast.Attribute) and x.attr == 'body' for a in c.args for x in ast.walk(a))
+            for c in ast.walk(n.ast))]
+        regs = [n for n in cfg.nodes if n.kind == 'stmt' and any(
+            isinstance(c, ast.Call) and call_attr(c) == 'append' and src(c.func.value) == pool and c.args and is_name(c.args[0], nm)
+            for c in ast.walk(n.ast))]
+        unregs = [n for n in cfg.nodes if n.kind == 'stmt' and any(
+            isinstance(c, ast.Call) and call_attr(c) == 'remove' and src(c.func.value) == pool and c.args and is_name(c.args[0], nm)
+            for c in ast.walk(n.ast))]
+        ok = bool(body_calls)
+        why = []
+        for b in body_calls[:1]:
+            if cfg.path_avoiding(b, skip_nodes=regs, start=p) is not None:
+                ok = False
+                why.append('the body is printed without `%s.append(%s)`' % (pool, nm))
+            if cfg.exit.id in cfg.reach_from([x for x, _l in b.succ], skip_nodes=unregs):
+                ok = False
+                why.append('`%s.remove(%s)` does not follow on every path' % (pool, nm))
+        res.add('%s :: get_ast_term.helper :: binder-name@%s' % (PPRINT, src(p.ast.value.args[0], 30)), ok,
+                'name registered in %s while the body is printed, removed afterwards' % pool if ok else
+                '; '.join(why) or 'no recursive call on the body found', '%s:%d' % (PPRINT, p.lineno))
+    return res
+
+
+def cfg_from(f):
+    from ..cfg import cfg_of
+    return cfg_of(f.node)
+
+
 def rules(repo):
-    return [rule_w1(repo), rule_w2(repo), rule_w3(repo)]
+    return [rule_w1(repo), rule_w2(repo), rule_w3(repo), rule_w4(repo)]
